@@ -30,7 +30,7 @@ func (pipeline) Runs(tier string) int64 {
 	if tier == "thorough" {
 		return 2000000
 	}
-	return 8000
+	return 30000
 }
 
 func (pipeline) Meta() core.EngineMeta {
